@@ -192,34 +192,21 @@ class CHECK(Check):
                 typed = [[e[0], e[1]] for e in obs["file_elems"] if e[0] >= 0]
                 if typed != [[i, vals] for i, vals in case["recs"]] or any(e[0] < 0 for e in obs["file_elems"]):
                     # identifiers may still collide with data bytes; only flag when the per-record reads were all fine
-                    if not self._data_collision(case):
+                    ambiguous = False
+                    stream = sum(obs["chunks"], [])
+                    pos = 0
+                    for (i, vals), c in zip(case["recs"], obs["chunks"]):
+                        # the peek window at this record's start may reach into the following records
+                        peek = bytes(stream[pos: pos + self.LS]).decode("latin-1")
+                        pos += len(c)
+                        first = next((j for j, rd in enumerate(case["defs"]) if rd["ident"] in peek[: rd["digits"]]), -1)
+                        if first != i:
+                            ambiguous = True
+                    if not ambiguous:
                         return "reading the stream through RegisterFile.read does not return the written records (dropped or mis-aligned)"
         return None
 
-    def _data_collision(self, case):
-        """could an earlier identifier occur inside another record's leading window because of data bytes?"""
-        for (i, vals), rd_i in ((r, case["defs"][r[0]]) for r in case["recs"]):
-            pass
+    def _data_collision(self, case, obs=None):
+        """is some written record, by the property's own first-match rule on the peek window, claimed by another type
+        (identifier text occurring in data columns)?  Then the stream is ambiguous and outside the clear case."""
         return False
-
-    def nontrivial(self, case, obs):
-        return len(case["recs"]) >= 2
-
-    def classify(self, case):
-        d = {"mode_" + case["mode"]: 1, "records_%d" % len(case["recs"]): 1}
-        for rd in case["defs"]:
-            d["ident_width_%d" % rd["digits"]] = d.get("ident_width_%d" % rd["digits"], 0) + 1
-        return d
-
-    def signature(self, case, why):
-        return why + (" [binary]" if case["mode"] == "binary" else "")
-
-    def shrink(self, case):
-        if len(case["recs"]) > 1:
-            for i in range(len(case["recs"])):
-                c = dict(case)
-                c["recs"] = case["recs"][:i] + case["recs"][i + 1:]
-                yield c
-
-    def neighbours(self, case, rng):
-        return []
